@@ -6,6 +6,7 @@ a ``try`` whose handlers cover the builtin's raise set {TypeError, ValueError,
 OverflowError} and reach ``return default``; string filters normalise their input through
 soft_str/str before using str methods; truncate's length accounting subtracts len(end) and
 honours the leeway; the registrations in FILTERS point at these functions.
+Also: None-defaulted parameters are replaced only under `is None` (no `p = p or d`); text regexes are not ASCII-restricted.  
 Not decided: truncation/wrapping/rounding arithmetic - it quantifies over runtime values.
 """
 
